@@ -11,7 +11,7 @@ from .. import recipe as R
 from ..common import pages_label, run_recipe
 from ..engine import Result
 from .. import findings as findings_mod
-from ..pagemodel import COORD, group_values, row_weight
+from ..pagemodel import COORD, analyze, group_values, headings_brought, reservation, row_weight
 from ..model import classify
 
 ID = "C05"
@@ -25,17 +25,48 @@ RULE = ("Sorted group-key sequences (every prefix key one contiguous run) with 1
         "outer level's heading; every heading is directly followed by an inner heading or a data row whose value "
         "it names; per level the number of headings equals the number of prefix-key runs on the page; no heading "
         "reads '-----' and no row is lost; with subline_by every page has exactly one heading paragraph naming "
-        "its single group. Non-trivial = a group continues across a page break or an inner level changes "
+        "its single group; a break on a page with divider rows is justified by the page's fill (a divider never costs a "
+        "line). 30% of the generated tables use numeric keys counted from 0 (int / float columns). Non-trivial = a group continues across a page break or an inner level changes "
         "inside a page.")
-ASSUMPTIONS = ["headings are recognised by their @G<level>: / @B<level>: tags", "null group values are outside this property's domain"]
+ASSUMPTIONS = ["headings are recognised by their @G<level>: / @B<level>: tags (numeric keys: by display texts that are disjoint between levels)", "null group values are outside this property's domain"]
 
 HEAD = re.compile(r"^@G(\d+):")
 
 
+def numeric_keys(rec):
+    """The same table with numeric group keys counted from 0: level 0 -> int k, level 1 -> float k, level 2 -> int 1000+k
+    (a '-----' run becomes a group of its own, 500+run index).  The display texts of different levels stay disjoint, so
+    a heading row is attributed to its level by its text."""
+    sec = rec["sections"][0]
+    body = sec["body"]
+    for key in ("page_by", "subline_by"):
+        for lvl, name in enumerate(R.as_list(body.get(key))):
+            col = R.column(sec, name)
+            out, prev, runs = [], object(), 0
+            for v in col["values"]:
+                if v != prev:
+                    runs += 1
+                prev = v
+                k = 500 + runs if v == "-----" else int(v.rsplit("v", 1)[1])
+                out.append([k, float(k), 1000 + k][lvl])
+            col["values"] = out
+            col["dtype"] = "float" if lvl == 1 else "int"
+    rec["numeric_keys"] = True
+    return rec
+
+
+@st.composite
+def _numeric(draw, base):
+    rec = draw(base)
+    if draw(st.integers(0, 9)) < 3:
+        rec = numeric_keys(rec)
+    return rec
+
+
 def strategy(tier):
     return st.one_of(
-        pgen.pag_recipe(strategies=("page_by", "page_by", "page_by_new", "subline"), max_rows=40, nrow_range=(3, 30), levels_max=3,
-                        dividers=True, subline_with_page_by=True, pageby_rows=("column", "first_row"), max_height=2),
+        _numeric(pgen.pag_recipe(strategies=("page_by", "page_by", "page_by_new", "subline"), max_rows=40, nrow_range=(3, 30), levels_max=3,
+                                 dividers=True, subline_with_page_by=True, pageby_rows=("column", "first_row"), max_height=2)),
         pgen.pag_recipe(strategies=("page_by",), max_rows=30, nrow_range=(3, 9), levels_max=2, dividers=True, max_height=1, fn_src=False),
     )
 
@@ -102,6 +133,27 @@ def check(case) -> Result:
     levels = len(R.as_list(body.get("page_by")))
     spanning = R.spanning(body)
     pages = classify(out.doc)
+    # headings are attributed to their level by the @G<level>: tag, or (numeric keys) by the display text of the level's values
+    hmap = {}
+    subtexts = set()
+    if case.get("numeric_keys"):
+        for lvl, name in enumerate(R.as_list(body.get("page_by"))):
+            for v in R.column(sec, name)["values"]:
+                hmap[str(v)] = lvl
+        subtexts = {", ".join(str(v) for v in k) for k in sb_keys if k}
+        for items in pages:
+            for it in items:
+                if it.role == "data" and len(it.texts) == 1 and it.texts[0] in hmap and spanning:
+                    it.role = "heading"
+                elif it.role == "para?" and it.texts[0] in subtexts:
+                    it.role = "sublinehead"
+
+    def level_of(t):
+        m = HEAD.match(t)
+        if m:
+            return int(m.group(1))
+        return hmap.get(t)
+
     # physical stranding: a heading that ends within the nrow lines of a page while the row it introduces does not
     # (each table row weighted by an independent lower bound on its lines); the open auto-header finding of C03
     # shifts every line by one and is allowed for
@@ -138,10 +190,9 @@ def check(case) -> Result:
                 res.checks += 1
                 if t == "-----" or t.startswith("-----"):
                     res.fail("divider", "heading_rendered_for_divider", f"page {pn + 1}")
-                m = HEAD.match(t)
-                if not m:
+                lvl = level_of(t)
+                if lvl is None:
                     continue
-                lvl = int(m.group(1))
                 if not spanning:
                     res.fail("heading", "spanning_row_in_column_mode", f"page {pn + 1}: {t}")
                 recent[lvl] = (t, pos)
@@ -149,8 +200,8 @@ def check(case) -> Result:
                 if nxt is None or nxt.role not in ("heading", "data"):
                     res.fail("stranded", f"level{lvl}", f"page {pn + 1}: heading {t!r} followed by {nxt.role if nxt else 'end of page'}")
                 elif nxt.role == "heading":
-                    m2 = HEAD.match(nxt.texts[0])
-                    if m2 and int(m2.group(1)) <= lvl:
+                    l2 = level_of(nxt.texts[0])
+                    if l2 is not None and l2 <= lvl:
                         res.fail("stranded", f"level{lvl}_followed_by_outer_or_same", f"page {pn + 1}: {t!r} then {nxt.texts[0]!r}")
             elif it.role == "data":
                 idx = None
@@ -194,7 +245,7 @@ def check(case) -> Result:
                         if prev is None or prev[lvl] != k[lvl] or any(prev[o] != k[o] and k[o] != "-----" for o in range(lvl)):
                             lo += 1
                     prev = k
-                got = sum(1 for it in items if it.role == "heading" and (HEAD.match(it.texts[0]) or [None, -1])[1] == str(lvl))
+                got = sum(1 for it in items if it.role == "heading" and level_of(it.texts[0]) == lvl)
                 res.checks += 1
                 if not (lo <= got <= hi):
                     res.fail("heading_count", f"level{lvl}/" + ("too_many" if got > hi else "too_few"),
@@ -216,12 +267,31 @@ def check(case) -> Result:
                 continued = True
         if rows_here:
             prev_last = rows_here[-1]
+    # a divider never costs a data row: a break next to divider rows must be justified by the page's fill
+    # (default font and calibrated heights, so the line counts are unambiguous; same accounting as C04)
+    if spanning and not case.get("numeric_keys") and any("-----" in k for k in pb_keys):
+        pm = analyze(out.doc)
+        if [d.index for p in pm for d in p.data] == list(range(n)):
+            Rsv = reservation(case)
+            new_page = bool(body.get("new_page")) or bool(body.get("subline_by"))
+            for a, b in zip(pm, pm[1:]):
+                if not a.data or not b.data:
+                    continue
+                i, j = a.data[-1].index, b.data[0].index
+                if not ("-----" in pb_keys[j] or any("-----" in pb_keys[d.index] for d in a.data)):
+                    continue
+                res.checks += 1
+                forced = (bool(sb_keys[i]) and sb_keys[i] != sb_keys[j]) or (new_page and pb_keys[i] != pb_keys[j])
+                need = b.data[0].weight + headings_brought(pb_keys[i], pb_keys[j])
+                if not forced and a.body_fill() + need <= nrow - Rsv:
+                    res.fail("divider", "costs_a_row", f"break after row {i}: page {a.number + 1} holds {a.body_fill()} lines and row {j} needs {need}, "
+                             f"nrow {nrow} - reserved {Rsv}; keys on the page {sorted({pb_keys[d.index] for d in a.data})[:4]}")
     res.checks += 1
     if seen_rows != n:
         res.fail("divider", "rows_lost_or_extra", f"{seen_rows} data rows rendered for {n} input rows")
     has_div = any("-----" in k for k in pb_keys)
     res.labels = [pages_label(len(pages)), "strategy=" + case.get("strategy", "?"), f"levels={levels}", "dividers" if has_div else "no_dividers",
                   "spanning" if spanning else "column_mode", "continued" if continued else "not_continued",
-                  "inner_change" if inner_change else "no_inner_change"]
+                  "inner_change" if inner_change else "no_inner_change", "numeric_keys" if case.get("numeric_keys") else "text_keys"]
     res.nontrivial = continued or inner_change
     return res
